@@ -287,3 +287,24 @@ check('C15', 'E4/fault', 'fault_enumeration',
       'fake redis module; sleeps are seams; Kombu/Kafka/ZeroMQ/aio-pika '
       'backends need libraries that are not installed.',
       'DESIGN.md 6/C15')
+
+check('C02', 'E4', 'exploration',
+      'bounded-exhaustive payload enumeration over a loopback wire built '
+      'from the real engine.io codecs',
+      'A real server and a real client are joined by a wire that passes '
+      'every engine.io packet through the real engine.io codec of the '
+      'chosen framing (WebSocket text/binary frames or polling payload with '
+      'base64). For {Server+Client, AsyncServer+AsyncClient} x {default, '
+      'msgpack} x {WebSocket, polling} x {function handlers, class-based '
+      'namespaces}, every JSON+bytes tree up to 3 (4) nodes over an 11-leaf '
+      'alphabet plus tuples of 0-3 elements is sent with emit and send in '
+      'both directions on two namespaces and also used as handler return '
+      'value for callbacks and call(); handler arguments, callback '
+      'arguments and call() results are compared by value and exact type '
+      'with the tuple/None/other rule; all bursts of 1-3 consecutive '
+      'messages check order; held-back acknowledgements check that three '
+      'outstanding callbacks each get their own answer.',
+      'ints within 64 bits, string keys, tuples only at top level; threaded '
+      'client handler tasks started in arrival order and run to completion; '
+      'concurrent emitters excluded (documented as unsupported).',
+      'DESIGN.md 6/C02')
